@@ -1539,6 +1539,11 @@ def OP_CHECK_ADAPTER_SIG(tape: Tape, stack: Stack, cache: dict) -> None:
     m = stack.get()
     R = stack.get()
     sa = stack.get()
+    if  (   len(sa) == nacl.bindings.crypto_core_ed25519_SCALARBYTES and
+            nacl.bindings.crypto_core_ed25519_scalar_reduce(sa + bytes(32)) != sa
+        ):
+        # non-canonical scalar: would pass here but decrypt to an invalid sig
+        return stack.put(b'\x00')
     sa_G = nacl.bindings.crypto_scalarmult_ed25519_base_noclamp(sa) # sa_G = G^sa
     RT = aggregate_points((R, T)) # R + T
     ca = clamp_scalar(H_small(RT, X, m)) # H(R + T || X || m)
